@@ -1,2 +1,2 @@
-/-! stub: replaced by the owner of the m_devseq driver (see tools/AGENT_GUIDE.md) -/
-def main : IO Unit := IO.println "bad-op"
+import DaliVerif.Drivers.DevSeqDrv
+def main : IO Unit := DaliVerif.DevSeqDrv.main
